@@ -96,8 +96,8 @@ theorem riseset_start_from_day_fractions (t : TopAstroDay α) (w : Weather α) (
       (hourAngle t.cur.sid t.cur.ra t.coords.lon rd (capAngle1 (m0 + adj)))) := by
   simp [shurDhuhrMagh, h]
 
-/-- **weather never moves a time that is not Shurooq or Maghrib, nor changes whether they exist;
-    absent weather is the default weather** — every scalar type (Thm C12) -/
+/-- **weather never moves a time that is not Shurooq or Maghrib, nor changes whether they exist** —
+    every scalar type (that absent weather is the default weather is Thm C12 `weather_none_is_default`) -/
 theorem weather_scope (p : Params α) (t : TopAstroDay α) (w w' : Weather α) :
     (getHours p t w').fajr = (getHours p t w).fajr ∧ (getHours p t w').dhuhr = (getHours p t w).dhuhr ∧
     (getHours p t w').asr = (getHours p t w).asr ∧ (getHours p t w').isha = (getHours p t w).isha ∧
